@@ -1,6 +1,6 @@
 // C08 — response body extensions (trace id, warnings): any flags x any short body => value or error, never a panic;
 // well-formed => exact content.
-#![allow(dead_code, unused_imports)]
+#![allow(dead_code, unused_imports, static_mut_refs)]
 mod c08ext {
     use super::super::*;
 
@@ -47,5 +47,32 @@ mod c08ext {
         let other: u8 = kani::any();
         let flags = (other & flag::TRACING) | flag::COMPRESSION;
         assert!(parse_response_body_extensions(flags, None, Bytes::copy_from_slice(&raw[..n])).is_err());
+    }
+    // ---- frame header: the announced body length must not make the driver reserve memory before the bytes arrive
+    static mut INPUT_LEN: usize = 0;
+    /// contract of the allocation primitive (see result/verif_kani.rs): elements reserved <= bytes of input
+    fn with_capacity_in_proportion<T>(n: usize) -> Vec<T> {
+        assert!(n <= unsafe { INPUT_LEN }, "Vec::with_capacity(n): n elements reserved for an input of fewer than n bytes");
+        Vec::new()
+    }
+    /// a 9-byte RESULT frame header announcing a 256 MiB body, then end of stream: the read fails with an error, and no
+    /// reservation exceeds what was received
+    #[kani::proof]
+    #[kani::unwind(12)]
+    #[kani::stub(std::rt::thread_cleanup, noop)]
+    #[kani::stub(alloc::fmt::format, empty_string)]
+    #[kani::stub(std::vec::Vec::with_capacity, with_capacity_in_proportion)]
+    fn c08_frame_header_length_alloc() {
+        use std::future::Future;
+        use std::task::{Context, Poll, Waker};
+        static RAW: [u8; 9] = [0x84, 0x00, 0x00, 0x01, 0x08, 0x10, 0x00, 0x00, 0x00];
+        unsafe { INPUT_LEN = 9 };
+        let mut reader = &RAW[..];
+        let fut = std::pin::pin!(read_response_frame(&mut reader));
+        let mut cx = Context::from_waker(Waker::noop());
+        match fut.poll(&mut cx) {
+            Poll::Ready(r) => assert!(std::mem::ManuallyDrop::new(r).is_err(), "a truncated frame is an error"),
+            Poll::Pending => assert!(false, "a slice reader never suspends"),
+        }
     }
 }
